@@ -643,7 +643,7 @@ def run(tier):
     chk.coverage = {
         'evaluations': n_eval,
         'distinct_nontrivial': len(nontrivial),
-        'rule': 'every case is a BareScript program run by execute_script in a subprocess under one of the 8 zones; non-trivial = '
+        'rule': '+ round 7: d + n aimed into the skipped / repeated wall-clock interval of every sampled offset change; every case is a BareScript program run by execute_script in a subprocess under one of the 8 zones; non-trivial = '
                 'distinct datetimeNew argument lists with at least one component outside its natural range and a non-null result; '
                 'families: corpus, exhaustive months -30..40 x boundary days x 4 year kinds, exhaustive carry boundaries of each time '
                 'component, random over the whole quantifier per zone, wall times around every offset change of each zone found by '
